@@ -32,6 +32,7 @@ const (
 	maxClients = 8
 	serverPort = 10123
 	noPathMsg  = "failed to measure clock offset: no path"
+	noMeasMsg  = "failed to measure clock offset: no successful measurement"
 )
 
 type sysClock struct{}
@@ -369,6 +370,8 @@ func runHist(tags string, h *histIn) {
 			cls = 2
 			if err.Error() == noPathMsg {
 				cls = 1
+			} else if err.Error() == noMeasMsg {
+				cls = 4
 			}
 		}
 		if panicked {
